@@ -585,6 +585,25 @@ def _quiet(fn):
         return e
 
 
+class _Answers:
+    """Stands in for sys.stdin: every line read is an answer."""
+
+    def readline(self, *a):
+        return "x\n"
+
+    def read(self, *a):
+        return "x\n"
+
+    def isatty(self):
+        return False
+
+    def fileno(self):
+        raise OSError("no file descriptor")
+
+    def close(self):
+        pass
+
+
 def _seen_count(lg, after):
     """after = message type (at least one seen) or [type, n] (at least n seen)."""
     t, n = (after, 1) if isinstance(after, int) else (after[0], after[1])
@@ -602,12 +621,23 @@ def run_authc(ctx, method, msgs, record=True, early=(), service_transport=False,
     ce, se = peers.start_both(tc, ts, peers.OpenServer())
     res = {}
     th = None
+    real_stdout = None
     try:
         if ce or se:
             ctx.inconc("authc:handshake-failed")
             return True
         ts.raw()
         pool = peers.keypool()
+        if method == "interactive-dumb":
+            # the documented convenience handler prints the prompts and reads the answers from stdin - on the transport
+            # thread, whenever an INFO_REQUEST arrives. stdin is replaced for good (an endless supply of answers: a handler
+            # that outlives its case must never block on the real stdin), stdout until the session has been shut down.
+            import io
+            import sys
+
+            if not isinstance(sys.stdin, _Answers):
+                sys.stdin = _Answers()
+            real_stdout, sys.stdout = sys.stdout, io.StringIO()
         # messages the server volunteers after NEWKEYS, before the application starts to authenticate
         for p in early:
             seen = len(ts.log)
@@ -628,18 +658,7 @@ def run_authc(ctx, method, msgs, record=True, early=(), service_transport=False,
                 elif method == "password-fallback":
                     res["r"] = tc.auth_password("u", "pw", fallback=True)
                 elif method == "interactive-dumb":
-                    # the documented convenience handler prints the prompts and reads the answers from stdin
-                    import contextlib
-                    import io
-                    import sys
-
-                    old_in = sys.stdin
-                    sys.stdin = io.StringIO("x\n" * 64)
-                    try:
-                        with contextlib.redirect_stdout(io.StringIO()):
-                            res["r"] = tc.auth_interactive_dumb("u")
-                    finally:
-                        sys.stdin = old_in
+                    res["r"] = tc.auth_interactive_dumb("u")
                 elif method == "publickey":
                     res["r"] = tc.auth_publickey("u", pool["ed25519"])
                 elif method == "publickey-rsa":
@@ -674,6 +693,12 @@ def run_authc(ctx, method, msgs, record=True, early=(), service_transport=False,
         th.join(8)
         if th.is_alive():
             ctx.inconc("authc:call-did-not-return")
+        saved = tc.get_exception() if not tc.is_active() else None
+        if real_stdout is not None:
+            import sys
+
+            peers.shutdown(tc, ts)
+            sys.stdout, real_stdout = real_stdout, None
         if record:
             rounds = sum(1 for e in ts.log if e[1] == 61)
             extra = ["authc:info-responses-sent-by-client:%d" % min(rounds, 3)] if rounds else []
@@ -681,11 +706,14 @@ def run_authc(ctx, method, msgs, record=True, early=(), service_transport=False,
         ok = True
         if "e" in res:
             ok = judge(ctx, case, "auth-call-raises", res["e"]) and ok
-        if not tc.is_active():
-            ok = judge(ctx, case, "get_exception", tc.get_exception()) and ok
+        ok = judge(ctx, case, "get_exception", saved) and ok
         return ok
     finally:
         peers.shutdown(tc, ts)
+        if real_stdout is not None:
+            import sys
+
+            sys.stdout = real_stdout
         if th is not None:
             th.join(5)
 
